@@ -72,12 +72,17 @@ def stage1(impl, srcs):
     set_builtins(impl)
     hx = [hexs(s) for s in srcs]
     outs = run_family(impl, "c14_dump", hx)
+    # the AST of every source (real parser): the model re-computes the BUILD errors itself with the literal model of
+    # SchemaBuilder (Schema/Build.v), so that a build error the real builder fails to report is a disagreement
+    from props import sch_util
+    sch_util.setup_builtin(impl)
+    asts = sch_util.ast_stage(impl, srcs)
     lines, classes = [], []
-    for h, o in zip(hx, outs):
+    for h, o, a in zip(hx, outs, asts):
         parts = o.split(" ", 2)
         if len(parts) != 3 or not parts[0].isdigit() or parts[2][:1] not in ("P", "F"):
             raise MachineryError(f"c14_dump failed on {unhexs(h)!r}: {o[:200]}")
-        lines.append(f"{h} {parts[0]} {parts[2]}")
+        lines.append(f"{h} {parts[0]} {parts[2]} {a if a is not None else '-'}")
         classes.append(parts[1])
     return lines, classes
 
